@@ -496,3 +496,5 @@ def run(ctx):
     ctx.borrow(c12.r2, {'C12.R2': 'C07.R5'},
                'a field is range-checked against the minimum/maximum of the type object it got from derive(); a cached '
                'object built for another range lets values outside the field\'s own range pass')
+    import rules.C06 as c06
+    c06.boundary_rule(ctx, 'C07.R7')
